@@ -1563,6 +1563,8 @@ var shapeTargets = []shapeTarget{
 	{"internal/peers", "SendTo", "Hub", "if-all", "hub_sendto"},
 	{"internal/peers", "BroadcastExcept", "Hub", "if-all", "hub_bcast_except"},
 	{"internal/peers", "CloseSession", "Hub", "if-all", "hub_close_session"},
+	// the receiver's main loop: per case of its last for-select, the communication and every `if` condition inside it
+	{"internal/transfer", "RecvManifestMultiStream", "", "last-for-select", "recv_main_loop"},
 }
 
 func (w *world) genShapes() string {
@@ -1617,6 +1619,32 @@ func hasStringLit(n ast.Node, sub string) bool {
 // shapesIn: for if-selectors, the conditions of all enclosing `if`s (outermost first, joined with " ; ") of each matching `if`
 func (w *world) shapesIn(body *ast.BlockStmt, sel string) []string {
 	var res []string
+	if sel == "last-for-select" {
+		var last *ast.SelectStmt
+		ast.Inspect(body, func(n ast.Node) bool {
+			if fs, ok := n.(*ast.ForStmt); ok && fs.Cond == nil && len(fs.Body.List) == 1 {
+				if ss, ok := fs.Body.List[0].(*ast.SelectStmt); ok {
+					last = ss
+				}
+			}
+			return true
+		})
+		if last == nil {
+			return nil
+		}
+		for _, st := range last.Body.List {
+			cc := st.(*ast.CommClause)
+			comm := "default"
+			if cc.Comm != nil {
+				var buf bytes.Buffer
+				printer.Fprint(&buf, w.fset, cc.Comm)
+				comm = buf.String()
+			}
+			blk := &ast.BlockStmt{List: cc.Body}
+			res = append(res, comm+" :: "+strings.Join(w.shapesIn(blk, "if-all"), " | "))
+		}
+		return res
+	}
 	var stack []ast.Node
 	conds := func() string {
 		var cs []string
